@@ -323,6 +323,54 @@ def boundary_facets(m):
     return sorted(l for l, c in cnt.items() if c == 1)
 
 
+def part_topology(m, targets, symf):
+    """part-local topology of a closed entity set; the part's k-th c-entity lists the parent entity's vertices
+    re-ordered by the symmetry `symf(c, k)`; sub-index sets are derived with the part's own local-face convention"""
+    D = m.dim
+    loc = [{t: i for i, t in enumerate(tg)} for tg in targets]
+    topo = {}
+    for c in range(1, D + 1):
+        tv = []
+        for k, e in enumerate(targets[c]):
+            pv = m.idx[(c, 0)][e]
+            tv.append(tuple(loc[0][pv[j]] for j in symf(c, k)))
+        topo[(c, 0)] = tv
+    for c in range(2, D + 1):
+        for f in range(1, c):
+            vsets = {frozenset(t): i for i, t in enumerate(topo[(f, 0)])}
+            topo[(c, f)] = [tuple(vsets[frozenset(t[j] for j in lf)] for lf in FIM[m.kind][c][f]) for t in topo[(c, 0)]]
+    return topo
+
+
+def part_orientation_sweep(rng):
+    """deterministic: mesh parts WITH topology whose cells/faces/edges take every orientation relative to the parent
+    entity they are attached to (8 quadrilateral, 6 triangle, 2 edge codes), on 2-D meshes (part cells) and on 3-D
+    meshes (boundary faces)"""
+    cases = []
+    for kind in (S, H):
+        for dim in (2, 3):
+            verts, cells = grid_mesh(kind, dim, (2, 2, 1)[:dim], rng, perturb=False)
+            m = build_topology(kind, dim, verts, cells, rng, scramble=True)
+            sets = [set() for _ in range(dim + 1)]
+            if dim == 2:
+                sets[2] = set(range(m.n(2)))
+            else:
+                sets[2] = set(boundary_facets(m))
+            targets = [sorted(x) for x in closure(m, sets)]
+            for t in targets:
+                rng.shuffle(t)
+            syms2, syms1 = SYMS[(kind, 2)], SYMS[(kind, 1)]
+            for s2 in range(len(syms2)):
+                def symf(c, k, s2=s2):
+                    if c == 2:
+                        return syms2[(s2 + k) % len(syms2)]     # every part face walks through all symmetries
+                    return syms1[(s2 + k) % 2]
+                topo = part_topology(m, targets, symf)
+                cases.append(fmt_case(m, 2 if dim == 2 else 1, [{"halo": s2 % 2 == 1, "targets": targets, "topo": topo}])
+                             + " @part-orient-sweep")
+    return cases
+
+
 def gen_part(m, rng, allow_abort=False):
     D = m.dim
     style = rng.choice(["bnd", "bnd", "bndsub", "cells", "cells", "loose", "edges", "verts"])
@@ -358,25 +406,7 @@ def gen_part(m, rng, allow_abort=False):
     if want_topo and (D < 3 or not targets[3] or (allow_abort and rng.random() < 0.3)):
         # part-local topology; local cells are re-oriented by a random symmetry, sub-index sets derived
         # with the part's own local-face convention
-        loc = [{t: i for i, t in enumerate(tg)} for tg in targets]
-        topo = {}
-        ok = True
-        for c in range(1, D + 1):
-            tv = []
-            for e in targets[c]:
-                pv = m.idx[(c, 0)][e]
-                p = rng.choice(SYMS[(m.kind, c)])
-                tv.append(tuple(loc[0][pv[j]] for j in p))
-            topo[(c, 0)] = tv
-        for c in range(2, D + 1):
-            for f in range(1, c):
-                vsets = {frozenset(t): i for i, t in enumerate(topo[(f, 0)])}
-                rows = []
-                for t in topo[(c, 0)]:
-                    rows.append(tuple(vsets[frozenset(t[j] for j in lf)] for lf in FIM[m.kind][c][f]))
-                topo[(c, f)] = rows
-        if not ok:
-            topo = None
+        topo = part_topology(m, targets, lambda c, k: rng.choice(SYMS[(m.kind, c)]))
     return {"halo": rng.random() < 0.3, "targets": targets, "topo": topo}
 
 
@@ -1117,7 +1147,19 @@ def main(argv):
         for p in sorted(glob.glob(os.path.join(cdir, "*.txt"))):
             corpus += [l.strip() for l in open(p) if l.strip()]
         sweep = orientation_sweep(random.Random(args.seed * 7919 + 1))
-        cases = corpus + sweep + gen_cases(rng, 800 if args.tier == "quick" else 6000, args.tier)
+        psweep = part_orientation_sweep(random.Random(args.seed * 104729 + 3))
+        need = {"part-orient:h2": 8, "part-orient:s2": 6, "part-orient:h1": 2, "part-orient:s1": 2,
+                "orient:h2": 8, "orient:s2": 6, "orient:h1": 2, "orient:s1": 2}
+        seen = {}
+        for c in psweep + sweep:
+            for k in describe(c):
+                for pre in need:
+                    if k.startswith(pre + ":"):
+                        seen.setdefault(pre, set()).add(k)
+        short = {pre: sorted(seen.get(pre, ())) for pre, n in need.items() if len(seen.get(pre, ())) < n}
+        if short:
+            raise RuntimeError("deterministic sweeps no longer cover every relative orientation: %s" % short)
+        cases = corpus + sweep + psweep + gen_cases(rng, 800 if args.tier == "quick" else 6000, args.tier)
     st = vlib.Stream("refine", cases, [binary], (None if t1_error else vlib.driver_cmd(PROP)), oracle=oracle, nontrivial=nontrivial,
                      describe=describe, signature=signature, canon=canon, env={"VERIF_CASE_TIMEOUT": "120"})
     rule = ("meshes: segment/triangle/quadrilateral/tetrahedron/hexahedron; structured grids (with holes), Kuhn/diagonal "
